@@ -140,6 +140,21 @@ def run_selftest(ctx):
     acc, _ = p_prover.validate(ctx, [v for _, v in variants])
     for name, v in variants:
         expect(f"C10 rejects: {name}", v["id"] not in acc)
+    # ---- Pipeline: hand-made event sequences
+    import p_pipeline
+    ctx.prop = "C11"
+    E = lambda e, nf=0, code=0: {"e": e, "nfiles": nf, "code": code}
+    base = {"fault": [], "save": True, "prove": True, "np": 2}
+    precs = [dict(base, id="ok", ev=[E("save"), E("save"), E("start", 2), E("start", 2), E("verdict"), E("exit")]),
+             dict(base, id="early-prover", ev=[E("save"), E("start", 1), E("save"), E("start", 2), E("verdict"), E("exit")]),
+             dict(base, id="refused-but-saved", fault=["refuse"], ev=[E("save"), E("exit", code=1)]),
+             dict(base, id="refused-ok", fault=["refuse"], ev=[E("exit", code=1)]),
+             dict(base, id="wrong-code", ev=[E("save"), E("save"), E("start", 2), E("start", 2), E("verdict"), E("exit", code=1)]),
+             dict(base, id="verdict-early", ev=[E("save"), E("save"), E("start", 2), E("verdict"), E("start", 2), E("exit")])]
+    acc = {v["id"] for v in V.tlc_validate(ctx, "TracePipeline", precs, {"VERIF_MODE": "check"}, workers=1) if v.get("kind") == "accepted"}
+    expect("Pipeline accepts a complete run and a clean refusal", {"ok", "refused-ok"} <= acc)
+    for bad in ("early-prover", "refused-but-saved", "wrong-code", "verdict-early"):
+        expect(f"Pipeline rejects: {bad}", bad not in acc)
     # ---- the machinery itself: abstract value domain (MCValues) and scheduled-vs-naive evaluation (MC_Eval of the plan)
     ctx.prop = "SELF"
     vals, out = V.run_tlc(ctx, "MCValues", "MCValues.cfg", {}, workers=4, timeout=900)
